@@ -12,7 +12,7 @@ def trace_cfg(keys, vals, invs):
 
 
 def judge(out, w, tr, source, cases):
-    viol, st = core.validate_trace('PgTrace', 'pgt.cfg', tr, workdir=w, chunk=20000)
+    viol, st = core.validate_trace('PgTrace', 'pgt.cfg', tr, workdir=w, chunk=10000, par=core.NCPU, split_on='"first":true')
     out.cov['evaluations'] += st['events']
     kf = {idx for inv, idx, ev in viol if inv == 'Note_KfRegion'}
     ks = {k['matcher']: k for k in core.known_for(PID)}
